@@ -187,8 +187,22 @@ def value_from_key(k):
     return eval(k, {'Decimal': Decimal, 'Fraction': Fraction, 'nan': float('nan'), 'inf': float('inf')})
 
 
+def warm_up(seed):
+    import random
+    order = [t for t in lexical.all_simple_type_names() if t != 'xs:Name']
+    random.Random(seed).shuffle(order)
+    for t in order:
+        vs = lexical.valid_texts(t)
+        ok, pv = lexical.python_value_for(t, vs[0])
+        c = type_class(t)
+        if c is not None and ok:
+            call(c, pv)
+
+
 def replay_case(rec):
     inp = rec['input']
+    if inp.get('after_warm_up') is not None:
+        warm_up(inp['after_warm_up'])
     if inp['side'] == 'no-text':
         return check_no_text(inp['element'], inp['value'])
     t = rec['type']
@@ -209,7 +223,7 @@ def all_literals():
 
 def shards(ctx):
     types = lexical.all_simple_type_names()
-    jobs = [{'mode': 'types', 'types': part} for part in gen.chunk(types, 12)]
+    jobs = [{'mode': 'types', 'types': part, 'warm': i % 2 == 1} for i, part in enumerate(gen.chunk(types, 12))]
     s = schema()
     notext = sorted(el for el, t in s.element_type.items() if s.content_kind(t) in ('empty', 'elements'))
     jobs += [{'mode': 'no-text', 'elements': part} for part in gen.chunk(notext, 2)]
@@ -235,6 +249,17 @@ def run_shard(ctx, shard, acc):
     s = schema()
     if shard['mode'] == 'types':
         lits = all_literals()
+        real_fail = acc.fail
+
+        def tagged_fail(f, raise_=True):
+            f['input']['after_warm_up'] = ctx.seed
+            return real_fail(f, raise_=raise_)
+        acc.fail = tagged_fail
+        if shard.get('warm'):
+            # half of the shards first instantiate EVERY simple-type class once (seed-dependent order), the other half
+            # meet their types in a pristine process: validation must not depend on which types were used before
+            warm_up(ctx.seed)
+            acc.count('shards-after-warm-up')
         for t in shard['types']:
             if t == 'xs:Name':
                 continue
